@@ -1,7 +1,7 @@
-(* C01 — the lemmas of Proofs/C01Proofs.v instantiated with the regenerated resolver tables (Gen/C01Resolvers.v);
+(* C01 — the lemmas of Proofs/C01Proofs.v instantiated with the regenerated resolver tables (Gen/C01Tables.v);
    every table fact is decided by the verified regex checker or by evaluation. Re-checked on every run. *)
 From JV Require Import Lib.Base Lib.Regex Model.TyVal Model.Scalar Proofs.ScalarProofs Model.C01Conf Model.C01Guard
-  Proofs.C01Proofs Gen.C01Resolvers.
+  Proofs.C01Proofs Gen.C01Tables.
 
 Lemma str_agree_tables : forall s, resolve dumper_table s = TgStr -> resolve loader_table s = TgStr.
 Proof. apply (plain_agree dumper_table loader_table 4000); vm_compute; reflexivity. Qed.
